@@ -97,7 +97,7 @@ func (ex *exampleValidator) validateExampleValueValidAgainstSchema() *Result {
 					if red.HasErrorsOrWarnings() {
 						res.AddWarnings(exampleValueDoesNotValidateMsg(param.Name, param.In))
 						res.MergeAsWarnings(red)
-					} else if red.wantsRedeemOnMerge {
+					} else if red != nil && red.wantsRedeemOnMerge {
 						pools.poolOfResults.RedeemResult(red)
 					}
 				}
@@ -108,7 +108,7 @@ func (ex *exampleValidator) validateExampleValueValidAgainstSchema() *Result {
 					if red.HasErrorsOrWarnings() {
 						res.AddWarnings(exampleValueItemsDoesNotValidateMsg(param.Name, param.In))
 						res.Merge(red)
-					} else if red.wantsRedeemOnMerge {
+					} else if red != nil && red.wantsRedeemOnMerge {
 						pools.poolOfResults.RedeemResult(red)
 					}
 				}
@@ -119,7 +119,7 @@ func (ex *exampleValidator) validateExampleValueValidAgainstSchema() *Result {
 					if red.HasErrorsOrWarnings() {
 						res.AddWarnings(exampleValueDoesNotValidateMsg(param.Name, param.In))
 						res.Merge(red)
-					} else if red.wantsRedeemOnMerge {
+					} else if red != nil && red.wantsRedeemOnMerge {
 						pools.poolOfResults.RedeemResult(red)
 					}
 				}
@@ -172,7 +172,7 @@ func (ex *exampleValidator) validateExampleInResponse(resp *spec.Response, respo
 				if red.HasErrorsOrWarnings() {
 					res.AddWarnings(exampleValueHeaderDoesNotValidateMsg(operationID, nm, responseName))
 					res.MergeAsWarnings(red)
-				} else if red.wantsRedeemOnMerge {
+				} else if red != nil && red.wantsRedeemOnMerge {
 					pools.poolOfResults.RedeemResult(red)
 				}
 			}
@@ -183,7 +183,7 @@ func (ex *exampleValidator) validateExampleInResponse(resp *spec.Response, respo
 				if red.HasErrorsOrWarnings() {
 					res.AddWarnings(exampleValueHeaderItemsDoesNotValidateMsg(operationID, nm, responseName))
 					res.MergeAsWarnings(red)
-				} else if red.wantsRedeemOnMerge {
+				} else if red != nil && red.wantsRedeemOnMerge {
 					pools.poolOfResults.RedeemResult(red)
 				}
 			}
@@ -204,7 +204,7 @@ func (ex *exampleValidator) validateExampleInResponse(resp *spec.Response, respo
 			// Additional message to make sure the context of the error is not lost
 			res.AddWarnings(exampleValueInDoesNotValidateMsg(operationID, responseName))
 			res.Merge(red)
-		} else if red.wantsRedeemOnMerge {
+		} else if red != nil && red.wantsRedeemOnMerge {
 			pools.poolOfResults.RedeemResult(red)
 		}
 	}
